@@ -267,6 +267,60 @@ Example C06_ts_group_notexists_v0_refuted :
 Proof. split; [reflexivity|]. split; [eexists; split; reflexivity|]. split; reflexivity. Qed.
 
 (* ================================================================================================
+   Aggregation limits and the token-value cache (ModelLimits.v).  [eval_tree_lim lim q t] is [eval_tree q t] as the
+   code runs it under the configuration lim = (MaxFieldTokens, MaxGroupTokens, MaxTIDsPerFraction), 0 = off:
+   iteratorFromLiteral's TID-count check, the counting of ConsumeTokenSource (group iterator, then field iterator),
+   the bin-count check after Aggregate(); None = the search fails with ErrTooManyUniqValues. *)
+From C06 Require Import ModelLimits ProofsLimits.
+
+(* With limits on, a search either fails or returns EXACTLY the result of the unlimited search — never a truncated
+   or otherwise different set of bins — for every configuration, query, corpus and merge tree.  (Together with
+   C06_agg_exact / C06_agg_exact_count / C06_agg_exact_unique: a result that passes the limits is exact.) *)
+Theorem C06_limits_only_reject :
+  forall lim q t a, eval_tree_lim lim q t = Some a -> a = eval_tree q t.
+Proof. exact ProofsLimits.limits_only_reject. Qed.
+Print Assumptions C06_limits_only_reject.
+
+(* limits off (all three 0, the configuration of every test environment): nothing is ever rejected *)
+Theorem C06_limits_off_never_reject :
+  forall q t, eval_tree_lim limits_off q t = Some (eval_tree q t).
+Proof. exact ProofsLimits.limits_off_never_reject. Qed.
+Print Assumptions C06_limits_off_never_reject.
+
+(* non-vacuity: count by group over two fractions with groups {1,2} and {2}: MaxGroupTokens = 1 rejects (the first
+   fraction has two groups), 2 passes with the unlimited result, and so do the production defaults;
+   MaxTIDsPerFraction = 1 rejects although only one document is selected (the check counts all tokens) *)
+Example C06_limits_nonvacuous :
+  let q := Query 0 5000 FCount false 0 [] 9 0 in
+  let t := Node (Leaf [Doc 1200 true (Some 1%N) None; Doc 1300 true (Some 2%N) None]) (Leaf [Doc 1900 true (Some 2%N) None]) in
+  eval_tree_lim (Limits 0 1 0) q t = None /\
+  eval_tree_lim (Limits 0 2 0) q t = Some (eval_tree q t) /\
+  eval_tree_lim limits_prod q t = Some (eval_tree q t) /\
+  eval_tree_lim (Limits 0 0 1) (Query 0 1250 FCount false 0 [] 9 0) t = None /\
+  eval_tree_lim (Limits 0 1 0) (Query 0 1250 FCount false 0 [] 9 0) t <> None.
+Proof. repeat split; try reflexivity. vm_compute. discriminate. Qed.
+
+(* ValueBySource: for every TID list, token table, state of countBySource (cnt: cache in use or not) and every
+   sequence of lookups, starting from the empty cache every answer is the value of the source's own token — a cache
+   hit equals the recomputation — with the cache keyed by source as the code keys it (and equally when keyed by TID
+   consistently); in particular the answers with the cache never used (counts 0: limits off) and with it are equal *)
+Theorem C06_value_cache_transparent :
+  forall tids val cnt srcs,
+    lookups key_code tids val cnt srcs [] = map (fun s => val (tid_of tids s)) srcs /\
+    lookups key_by_tid tids val cnt srcs [] = map (fun s => val (tid_of tids s)) srcs /\
+    lookups key_code tids val (fun _ => 0%N) srcs [] = lookups key_code tids val cnt srcs [].
+Proof. exact ProofsLimits.value_cache_transparent. Qed.
+Print Assumptions C06_value_cache_transparent.
+
+(* the half re-keyed cache (looked up by TID, filled by source; NOT the code in /repo) is refuted: TID list
+   [7;2;1], both tokens counted twice, lookups of source 2 then source 1 answer [1;1] instead of [1;2] *)
+Example C06_value_cache_wrong_key_refuted :
+  exists tids val cnt srcs,
+    lookups key_by_tid_get tids val cnt srcs [] <> map (fun s => val (tid_of tids s)) srcs /\
+    lookups key_by_tid_get tids val cnt srcs [] = [1; 1]%N /\ map (fun s => val (tid_of tids s)) srcs = [1; 2]%N.
+Proof. exact ProofsLimits.wrong_key_refuted. Qed.
+
+(* ================================================================================================
    The FLOAT64 data path (ModelFloat.v).  [eval_stree t] is what ONE bin goes through: every leaf of t is
    one fraction's sequence of InsertNTimes(num, cnt) calls on a fresh container (Min/Max by Go's min/max,
    Sum += num * float64(cnt)), inner nodes are SamplesContainer.Merge in the shape of the merge tree; all
